@@ -678,8 +678,12 @@ def _shard_qsnap(shard, ctx):
         for s1 in per:
             for s2 in (per[0], per[4], per[8]):
                 for short_l1 in (False, True):
-                    _case_qsnap({"kind": "qcow2-snap", "active": list(active), "snaps": [list(s1), list(s2)],
-                                 "short_l1": short_l1}, ctx)
+                    for prime in (False, True):
+                        for at0 in (False, True):
+                            if at0 and short_l1:
+                                continue
+                            _case_qsnap({"kind": "qcow2-snap", "active": list(active), "snaps": [list(s1), list(s2)],
+                                         "short_l1": short_l1, "prime": prime, "at0": at0}, ctx)
 
 
 def _case_qsnap(case, ctx):
@@ -693,6 +697,8 @@ def _case_qsnap(case, ctx):
     active, snaps = case["active"], case["snaps"]
     W = len(active)
     at = l2n - 1  # the window straddles the first L2 boundary, so the views differ in their L1 tables too
+    if case.get("at0"):
+        at = 0  # the views differ inside the very first stream buffer
     total = at + W
     # every view stores its own data in its own slots (slot = view * W + i); views never share a slot here
     def slots_of(st, v):
@@ -714,13 +720,25 @@ def _case_qsnap(case, ctx):
     ctx.executions += 1
     ctx.sample(case)
     size = total * cs
-    lo = (at - 1) * cs
-    pts = [lo, lo + 1, at * cs - 1, at * cs, at * cs + 1, (at + 1) * cs - 1, (at + 1) * cs, (at + 1) * cs + 5, size - 1, size]
-    reqs = request_pairs(pts)
+    lo = max(0, (at - 1) * cs)
+    pts = [lo, lo + 1, max(0, at * cs - 1), at * cs, at * cs + 1, (at + 1) * cs - 1, (at + 1) * cs, (at + 1) * cs + 5, size - 1, size]
+    reqs = request_pairs(sorted(set(pts)))
     with ctx.watch(case):
         try:
             q = QCow2(img.bytesio())
-            views = [q] + [s.open() for s in q.snapshots]
+            if case.get("prime"):
+                # the active view is used before the snapshot views are opened (views are copies of the active object:
+                # whatever the active object has buffered or cached at that moment must not show through)
+                views = [q]
+                for s in q.snapshots:
+                    for a in ((at - 1) * cs + 3, at * cs, 0):
+                        q.seek(max(0, a))
+                        q.read(cs + 1)
+                    q.seek(0)
+                    q.read(1)  # leaves the active object positioned inside its first, filled, buffer block
+                    views.append(s.open())
+            else:
+                views = [q] + [s.open() for s in q.snapshots]
         except Exception as e:
             ctx.violation(case, {"subject": "qcow2.snapshot.open", "kind": "exception", "exc": type(e).__name__},
                           {"exception": repr(e)[:300]})
